@@ -1,6 +1,7 @@
 package checks
 
 import (
+	"strings"
 	"encoding/json"
 	"fmt"
 	"reflect"
@@ -271,4 +272,29 @@ func checkParse(prop, text string, schema bool) (viol string, known []string, in
 		known = []string{"combination-of-findings"}
 	}
 	return "", known, info
+}
+
+// commentedVariant rewrites a lexable text so that a comment stands between every two tokens
+// (and before the first and after the last one). Comments are ignored by both grammars, so the
+// variant is derivable exactly when the original is; ok=false when the text does not lex.
+func commentedVariant(text string) (string, bool) {
+	rs := []rune(text)
+	lr := ref.Lex(rs, ref.LexOpts{})
+	if !lr.OK {
+		return "", false
+	}
+	var sb strings.Builder
+	sb.WriteString("#c\n")
+	for _, tk := range lr.Toks {
+		if tk.Kind == ref.EOF {
+			break
+		}
+		sb.WriteString(string(rs[tk.Start:tk.End]))
+		if tk.Kind == ref.Comment {
+			sb.WriteString("\n")
+		} else {
+			sb.WriteString(" #c\n")
+		}
+	}
+	return sb.String(), true
 }
